@@ -256,6 +256,11 @@ def run_history(case):
     fn = os.path.join(tmpdir(), "c16_final.wav")
     wav.save(fn)
     w3 = audio.Wav.open(fn)
+    # the opened Wav holds the recording as it was when it was opened, whatever happens to the file afterwards
+    write_other = [(-x if x else 1) for x in model[: max(1, len(model) // 2)]] or [1]
+    with wave.open(fn, "w") as wf:
+        wf.setparams((1, width, rate, 0, "NONE", "not compressed"))
+        wf.writeframes(to_bytes([max(-(2 ** (8 * width - 1)), min(2 ** (8 * width - 1) - 1, v)) for v in write_other], width))
     if from_bytes(w3.frames, width) != model or w3.duration != len(model) / rate:
         raise Violation("reopen-differs", f"final save -> Wav.open: {len(w3.frames) // width} samples (duration {w3.duration}) for {len(model)} at {rate} Hz")
     return {"classes": sorted(cl), "nontrivial": "offgrid_edit_wide" in cl}
